@@ -112,7 +112,7 @@ class MarkupMachine(Machine):
             self._needs_update = False
         return self._markup
 
-    def add_transition(self, trigger, source, dest, conditions=None,
+    def add_transition(self, trigger, source, dest=None, conditions=None,
                        unless=None, before=None, after=None, prepare=None, **kwargs):
         super(MarkupMachine, self).add_transition(trigger, source, dest, conditions=conditions, unless=unless,
                                                   before=before, after=after, prepare=prepare, **kwargs)
